@@ -451,3 +451,21 @@ Theorem quicksort_spec l : exists l', Quicksort l = Ok l' /\ Sorted Z.le l' /\ P
 Proof. apply quicksort_ref_spec. Qed.
 Lemma tausche_spec a b : Tausche a b = (b, a).
 Proof. reflexivity. Qed.
+
+(* the instrumented loop sorts exactly like the plain one *)
+Lemma quicksort_loop_tiefe_fst fuel : forall l stk d,
+  match quicksort_loop_tiefe fuel l stk d with Ok (l', _) => quicksort_loop fuel l stk = Ok l' | Err => quicksort_loop fuel l stk = Err
+  | NoFuel => quicksort_loop fuel l stk = NoFuel | Undef => quicksort_loop fuel l stk = Undef end.
+Proof.
+  induction fuel as [|f IH]; intros l stk d; cbn [quicksort_loop_tiefe quicksort_loop]; [reflexivity|].
+  destruct stk as [|[li re] rest]; [reflexivity|].
+  destruct (quicksort_iter_impl l li re) as [[l' i]| | |]; cbn [bind]; try reflexivity. apply IH.
+Qed.
+Lemma quicksort_tiefe_spec l : exists l' d, Quicksort_Tiefe l = Ok (l', d) /\ Quicksort_Ref l = Ok l'.
+Proof.
+  destruct (quicksort_ref_spec l) as (l' & E & _). unfold Quicksort_Tiefe.
+  pose proof (quicksort_loop_tiefe_fst (2 * length l + 2) l [(1, len l)] 1) as H.
+  unfold Quicksort_Ref, quicksort_iter in E. rewrite E in H.
+  destruct (quicksort_loop_tiefe (2 * length l + 2) l [(1, len l)] 1) as [[l2 d]| | |]; try discriminate.
+  exists l2, d. split; [reflexivity|]. unfold Quicksort_Ref, quicksort_iter. congruence.
+Qed.
